@@ -95,6 +95,28 @@ class SrcInfo:
         text = "\n".join(lines[line - 1:line + 12])
         text = text[col - 1:]
         text = strip_comments(text)
+        if not re.match(r"(unsafe\s+)?impl\b", text):
+            # #[derive(Trait)]: the span covers the trait name; Self is the item that follows the attribute
+            tm = re.match(r"([A-Za-z_0-9:]+)", text)
+            rest = "\n".join(lines[line - 1:line + 30])
+            rest = strip_comments(rest)
+            dm = re.search(r"\b(?:struct|enum|union)\s+([A-Za-z_0-9]+)\s*", rest)
+            if not tm or not dm:
+                return None
+            gens = ""
+            if rest[dm.end():dm.end() + 1] == "<":
+                try:
+                    gens = rest[dm.end():match_close(rest, dm.end()) + 1]
+                except Exception:
+                    return None
+            # impl<G..> Trait for Name<G..>
+            names = []
+            for g in split_top(gens[1:-1]) if gens else []:
+                g = g.strip()
+                if g:
+                    names.append(g.split(":")[0].split("=")[0].strip())
+            selfty = dm.group(1) + ("<" + ", ".join(names) + ">" if names else "")
+            return f"impl{gens} {tm.group(1).split('::')[-1]} for {selfty}"
         b = text.find("{")
         if b < 0:
             return None
